@@ -1453,10 +1453,17 @@ class Translator(object):
                     blk = ife[3]
                     only_break = (ife[4] is None and
                                   ((len(blk[2]) == 1 and blk[3] is None and blk[2][0][0] == 'expr'
-                                    and blk[2][0][2][0] == 'break')
-                                   or (not blk[2] and blk[3] is not None and blk[3][0] == 'break')))
+                                    and blk[2][0][2][0] in ('break', 'return'))
+                                   or (not blk[2] and blk[3] is not None and blk[3][0] in ('break', 'return'))))
                     if not only_break:
-                        raise TransErr('`if` on the loop count with a body other than `break`', st[1])
+                        raise TransErr('`if` on the loop count with a body other than `break` / `return`', st[1])
+                    # `return v;` as loop exit: v must be a loop-carried variable (the state is the result)
+                    ex = blk[2][0][2] if blk[2] else blk[3]
+                    if ex[0] == 'return':
+                        rv = ex[2]
+                        if rv is None or rv[0] != 'path' or len(rv[2]) != 1 or rv[2][0] not in hav:
+                            raise TransErr('loop exit `return` of something other than the loop-carried state', st[1])
+                        self._loop_result = benv.find_var_env(rv[2][0]).vars[rv[2][0]]
                     self.notes.append('loop exit test at line %d not modelled' % st[1])
                     continue
                 if isinstance(c, bool):
@@ -1467,6 +1474,10 @@ class Translator(object):
                     continue
                 raise TransErr('`if` on a run-time condition is outside the supported subset', st[1])
             self.exec_stmt(st, benv)
+        if getattr(self, '_loop_result', None) is not None:
+            r = self._loop_result
+            self._loop_result = None
+            raise ReturnEx(r)
         return UNIT
 
     # macros -----------------------------------------------------------------------------------
